@@ -77,6 +77,25 @@ func corpus(e *ev.Env, w *witnesses) {
 		mem.MemStore = true
 		all("near-keys-sequential-memory-storage", mem, faultPlan{})
 	}
+	// requests the middleware must leave alone: safe methods and requests exempted by a custom
+	// Next, with no key, a valid key (recorded or not) and malformed key headers
+	{
+		reqs := []reqSpec{dup("POST"), dup("POST")}
+		for i, k := range malformedKeys {
+			reqs = append(reqs, keyedReq([]string{"GET", "OPTIONS", "HEAD"}[i%3], k))
+		}
+		reqs = append(reqs, safeKeyed("GET"), keyedReq("GET", keyPool[1]))
+		all("safe-methods-with-any-key-header", seq(reqs...), faultPlan{})
+		reqs = []reqSpec{dup("POST"), {Method: "POST", Key: keyPool[0], Skip: true}, dup("PUT")}
+		for _, k := range malformedKeys {
+			reqs = append(reqs, reqSpec{Method: "POST", Key: k, Skip: true})
+		}
+		reqs = append(reqs, reqSpec{Method: "DELETE", Skip: true}, reqSpec{Method: "PATCH", Key: keyPool[1], Skip: true}, keyedReq("GET", malformedKeys[0]))
+		sk := seq(reqs...)
+		all("next-exempted-with-any-key-header", sk, faultPlan{})
+		sk.Keep, sk.ShapeBase, sk.MemStore = keepList, 4, true
+		all("next-exempted-with-any-key-header-memory-storage", sk, faultPlan{})
+	}
 	// harness self-check: sharding a schedule tree by a prefix of choices neither loses nor
 	// duplicates schedules (same set of interleavings as the unsharded DFS)
 	e.Corpus("selfcheck-prefix-sharding", func(c *ev.Case) {
